@@ -143,3 +143,55 @@ Fixpoint spec_run (d0 : nat) (h : list fop) (ops : list fop) : list fans :=
   | [] => []
   | o :: r => answer_spec d0 h o ++ spec_run d0 (o :: h) r
   end.
+
+(* ---------- EXTENSION (outside the property's quantifier): observers that add / remove observers of the
+   publisher while an event is being dispatched.  The code iterates `self._observers` LIVE (no copy): a CPython
+   list iterator (index) over the list the observers mutate; the failure reports are then sent through a
+   publisher built from the list as it is AFTER the dispatch. ---------- *)
+Inductive oact := ONone | OAdd (o : nat) | ORemove (o : nat).
+Record lobs := mkL { lbad_ev : bool; lbad_err : bool; lact : oact }.    (* behaviour of observer number i *)
+Definition lget (tab : list lobs) (i : nat) : lobs := nth i tab (mkL false false ONone).
+
+Definition memb (x : nat) (l : list nat) : bool := existsb (Nat.eqb x) l.
+Fixpoint remove1 (x : nat) (l : list nat) : list nat :=
+  match l with [] => [] | y :: r => if Nat.eqb x y then r else y :: remove1 x r end.
+
+(* addObserver (no duplicates) / removeObserver (ValueError ignored) *)
+Definition apply_act (a : oact) (os : list nat) : list nat :=
+  match a with
+  | ONone => os
+  | OAdd o => if memb o os then os else os ++ [o]
+  | ORemove o => remove1 o os
+  end.
+
+(* `for observer in self._observers:` — result: the list afterwards, the deliveries, the observers that raised,
+   and whether the fuel ran out *)
+Fixpoint dispatch_live (tab : list lobs) (fuel i : nat) (os : list nat) (n : nat)
+  : list nat * list dlv * list nat * bool :=
+  match fuel with
+  | 0 => (os, [], [], match nth_error os i with Some _ => true | None => false end)
+  | S f =>
+      match nth_error os i with
+      | None => (os, [], [], false)
+      | Some o =>
+          let b := lget tab o in
+          let '(os', ds, br, oo) := dispatch_live tab f (S i) (apply_act (lact b) os) n in
+          (os', Del o (Ev n) :: ds, (if lbad_ev b then o :: br else br), oo)
+      end
+  end.
+
+Definition to_obs (tab : list lobs) (os : list nat) : list obs :=
+  map (fun o => mkO o (lbad_ev (lget tab o)) (lbad_err (lget tab o))) os.
+
+Definition publish_live (tab : list lobs) (os : list nat) (n : nat) : list nat * list dlv * bool :=
+  let '(os', ds, br, oo) := dispatch_live tab (S (length os + length tab)) 0 os n in
+  (os', ds ++ flat_map (fun b => publish (S (length os')) (others (mkO b false false) (to_obs tab os')) (Err b)) br, oo).
+
+Fixpoint publish_all_live (tab : list lobs) (os : list nat) (es : list nat) : list dlv * bool :=
+  match es with
+  | [] => ([], false)
+  | n :: r =>
+      let '(os', ds, oo) := publish_live tab os n in
+      let '(ds', oo') := publish_all_live tab os' r in
+      (ds ++ ds', oo || oo')
+  end.
